@@ -30,7 +30,10 @@ where
     Split {
         this,
         state: if delim.as_str().is_empty() {
-            State::Empty(EmptyState::Start)
+            State::Empty(EmptyState {
+                yielded_start: false,
+                yielded_end: false,
+            })
         } else {
             State::Normal { delim }
         },
@@ -68,55 +71,63 @@ enum State<'p, P: Pattern<'p>> {
     Finished,
 }
 
+// State for splitting with an empty delimiter,
+// which yields an empty string, every char, then another empty string.
+//
+// The empty strings at the start and the end are tracked separately so that
+// mixing `next` and `next_back` yields each of them from the correct end.
 #[derive(Copy, Clone)]
-enum EmptyState {
-    Start,
-    Continue,
+struct EmptyState {
+    yielded_start: bool,
+    yielded_end: bool,
 }
 
 macro_rules! split_shared {
     (is_forward = $is_forward:ident) => {
-        const fn next_from_empty(mut self, es: EmptyState) -> Option<(&'a str, Self)> {
-            match es {
-                EmptyState::Start => {
-                    self.state = State::Empty(EmptyState::Continue);
-                    Some(("", self))
-                }
-                EmptyState::Continue => {
-                    use konst_kernel::string::__find_next_char_boundary;
+        const fn next_from_empty(mut self, mut es: EmptyState) -> Option<(&'a str, Self)> {
+            use konst_kernel::string::__find_next_char_boundary;
 
-                    let this = self.this;
+            let this = self.this;
 
-                    if this.is_empty() {
-                        self.state = State::Finished;
-                    }
-
-                    let next_char = __find_next_char_boundary(this.as_bytes(), 0);
-                    let (next_char, rem) = string::split_at(this, next_char);
-                    self.this = rem;
-                    Some((next_char, self))
+            if !es.yielded_start {
+                es.yielded_start = true;
+                self.state = State::Empty(es);
+                Some(("", self))
+            } else if !this.is_empty() {
+                let next_char = __find_next_char_boundary(this.as_bytes(), 0);
+                let (next_char, rem) = string::split_at(this, next_char);
+                self.this = rem;
+                Some((next_char, self))
+            } else {
+                self.state = State::Finished;
+                if es.yielded_end {
+                    None
+                } else {
+                    Some((this, self))
                 }
             }
         }
 
-        const fn next_back_from_empty(mut self, es: EmptyState) -> Option<(&'a str, Self)> {
-            match es {
-                EmptyState::Start => {
-                    self.state = State::Empty(EmptyState::Continue);
-                    Some(("", self))
-                }
-                EmptyState::Continue => {
-                    use konst_kernel::string::__find_prev_char_boundary;
+        const fn next_back_from_empty(mut self, mut es: EmptyState) -> Option<(&'a str, Self)> {
+            use konst_kernel::string::__find_prev_char_boundary;
 
-                    let this = self.this;
+            let this = self.this;
 
-                    if self.this.is_empty() {
-                        self.state = State::Finished;
-                    }
-                    let next_char = __find_prev_char_boundary(this.as_bytes(), this.len());
-                    let (rem, next_char) = string::split_at(this, next_char);
-                    self.this = rem;
-                    Some((next_char, self))
+            if !es.yielded_end {
+                es.yielded_end = true;
+                self.state = State::Empty(es);
+                Some(("", self))
+            } else if !this.is_empty() {
+                let next_char = __find_prev_char_boundary(this.as_bytes(), this.len());
+                let (rem, next_char) = string::split_at(this, next_char);
+                self.this = rem;
+                Some((next_char, self))
+            } else {
+                self.state = State::Finished;
+                if es.yielded_start {
+                    None
+                } else {
+                    Some((this, self))
                 }
             }
         }
